@@ -1,6 +1,5 @@
 import MalVerif.Py.StLib
 import MalVerif.Py.GenSt.Coh
-import MalVerif.Py.TieGraph
 /-
 Ties for the state-keeping emission of the attack-graph core (`MalVerif/Py/GenSt`): where the exceptions of
 `add_node` / `add_attacker` come from (all in front of the first write), the closed form of the half-way states of
@@ -67,6 +66,7 @@ def graph_add_attacker_prefix_st (s : H) (attacker : ARef) (attacker_id : (Optio
   return s
 
 /-- a graph with two nodes (objects 0 and 1, ids 0 and 1) and no attacker; attacker object 0 is not part of it -/
-def demoGraph : H := Tie.TG.anSt (Tie.TG.anSt {} 0 0) 1 1
+def demoGraph : H :=
+  ((graph_add_node {} 0 none).bind (fun s => graph_add_node s 1 none)).toOption.getD {}
 
 end MalVerif.Py.TieSt
